@@ -39,14 +39,33 @@ def fixtures():
             2: {"A": 0.1, "C": 0.2, "G": 0.3, "T": 0.4},
         }
         _cache["model"] = get_model(os.environ.get("VERIF_C07_MODEL", "HKY85"))
+        # the same model with rate heterogeneity: site classes with free rates
+        _cache["model_bins"] = get_model(os.environ.get("VERIF_C07_MODEL", "HKY85"), ordered_param="rate", distribution="free")
     return _cache
 
 
-def new_lf(aln, mp):
+# kinds of likelihood function the same ParamScope histories are replayed on (Adapter.variants):
+#   0 plain; 1 two independent site classes (unequal weights); 2 two site classes along a site-HMM
+LF_KINDS = {0: "plain", 1: "rate-classes", 2: "site-hmm"}
+EXTRA_FREE = {0: 0, 1: 1, 2: 1}   # free parameters besides kappa blocks and lengths (the free rate partition)
+
+
+def blank_lf(variant=0):
     fx = fixtures()
-    lf = fx["model"].make_likelihood_function(fx["tree"])
+    if variant == 0:
+        return fx["model"].make_likelihood_function(fx["tree"])
+    return fx["model_bins"].make_likelihood_function(fx["tree"], bins=2, sites_independent=(variant == 1))
+
+
+def new_lf(aln, mp, variant=0):
+    fx = fixtures()
+    lf = blank_lf(variant)
     lf.set_alignment(fx["aln"][aln])
     lf.set_motif_probs(fx["mp"][mp])
+    if variant:
+        lf.set_param_rule("bprobs", value=[0.3, 0.7], is_constant=True)
+    if variant == 2:
+        lf.set_param_rule("bin_switch", value=0.4, is_constant=True)
     return lf
 
 
@@ -59,11 +78,12 @@ class Ctx:
 
 
 class LfAdapter(Adapter):
-    variants = (0,)
+    variants = (0, 1, 2)
 
     def fresh(self, variant):
         ctx = Ctx()
-        ctx.lf = new_lf(1, 1)
+        ctx.variant = variant
+        ctx.lf = new_lf(1, 1, variant)
         ctx.lf.set_param_rule("kappa", value=SCALE * 1)
         ctx.aln, ctx.mp, ctx.susp, ctx.cm = 1, 1, False, None
         ctx.lenA = 1
@@ -78,7 +98,13 @@ class LfAdapter(Adapter):
             kw = {}
             if v:
                 kw["value" if c else "init"] = SCALE * v
-            lf.set_param_rule("kappa", edges=list(S), is_independent=indep, is_constant=c, **kw)
+            if ctx.variant and indep:
+                # with site classes, is_independent=True would also separate the classes (kappa has a bin dimension):
+                # the edge-wise partition the spec describes is expressed as one shared-across-classes rule per edge
+                for e1 in S:
+                    lf.set_param_rule("kappa", edge=e1, is_independent=False, is_constant=c, **kw)
+            else:
+                lf.set_param_rule("kappa", edges=list(S), is_independent=indep, is_constant=c, **kw)
         elif act == "SetMprobs":
             lf.set_motif_probs(fx["mp"][args[0]])
             ctx.mp = args[0]
@@ -164,12 +190,14 @@ class LfAdapter(Adapter):
     def finding_key(self, status, detail):
         act = detail["label"][0]
         if status != "mismatch":
-            return f"lf:{act}:{status}"
+            kind = LF_KINDS.get(detail.get("variant", 0), "plain")
+            return f"lf:{act}:{status}" + ("" if kind == "plain" else f":lf-kind={kind}")
         obs = detail["observed"]["state"]
         exp = detail["allowed"][0]["to"]
         diffs = sorted(k for k in set(exp) | set(obs) if obs.get(k) != exp.get(k))
         diffs = [d for d in diffs if d != "anomalies"] + list(obs.get("anomalies", []))
-        return f"lf:{act}:susp={detail['from']['susp']}:" + ",".join(diffs)
+        kind = LF_KINDS.get(detail.get("variant", 0), "plain")
+        return f"lf:{act}:susp={detail['from']['susp']}:" + ",".join(diffs) + ("" if kind == "plain" else f":lf-kind={kind}")
 
 
 class LfAdapterChecked(LfAdapter):
@@ -182,7 +210,7 @@ class LfAdapterChecked(LfAdapter):
         lf = ctx.lf
         anomalies = list(state.get("anomalies", []))
         # a function newly built from the state the history should have produced
-        ref = new_lf(state["aln"], state["mp"])
+        ref = new_lf(state["aln"], state["mp"], ctx.variant)
         ref.set_param_rule("length", edge="a", value=LEN_A[state["lenA"]])
         done = set()
         for e in EDGES:
@@ -194,12 +222,12 @@ class LfAdapterChecked(LfAdapter):
         if not close(lf.lnL, ref.lnL):
             anomalies.append("lnL-differs-from-fresh-function")
         nfree = len({tuple(state["blk"][e]) for e in EDGES if not state["const"][e]})
-        if lf.nfp != nfree + len(EDGES) or ref.nfp != lf.nfp:
+        if lf.nfp != nfree + len(EDGES) + EXTRA_FREE[ctx.variant] or ref.nfp != lf.nfp:
             anomalies.append("nfp-wrong")
         # export rules -> new function
         try:
             rules = lf.get_param_rules()
-            imp = fixtures()["model"].make_likelihood_function(fixtures()["tree"])
+            imp = blank_lf(ctx.variant)
             imp.set_alignment(fixtures()["aln"][state["aln"]])
             imp.apply_param_rules(rules)
             if not close(imp.lnL, lf.lnL):
